@@ -1,5 +1,5 @@
 // E1 fsmmon — compile-time configuration of one monitored machine type.
-//   -DCFG_N=3        number of states (1..8)
+//   -DCFG_N=3        number of states (1..32)
 //   -DCFG_HEAD=1     Root<Rt,...> (1) or PeerRoot<...> (0)
 //   -DCFG_MANUAL=0   activation
 //   -DCFG_L=4        substitution limit
@@ -83,7 +83,7 @@ constexpr bool HEAD = CFG_HEAD != 0;
 constexpr bool MANUAL = CFG_MANUAL != 0;
 constexpr unsigned BARE = CFG_BARE;
 constexpr unsigned ROOT = 255;
-static_assert(N >= 1 && N <= 8, "behavioural monitors run on 1..8 states");
+static_assert(N >= 1 && N <= 32, "behavioural monitors run on 1..32 states");
 static_assert(BARE < N, "at least one observable state");
 
 // ---------------------------------------------------------------------------
